@@ -93,6 +93,8 @@ class World:
                 "old": self._last_hint, "new": now, "cur_op": a.cur_op, "n": len(self.flips)}
         self._last_hint = now
         self.flips.append(flip)
+        if a.cur_op is not None:
+            a.cur_op.setdefault("flips", []).append(flip["n"])
         sim.probe("flip")
         for cb in self.on_flip:
             cb(flip)
@@ -333,6 +335,9 @@ def run_ops(ctx: Ctx, ops: List[dict]) -> None:
             rec["ret_flips"] = len(w.flips)
             if a is not None:
                 a.proc.exited = True
+                a.cur_op = None
+                sim.ops_done[a.name] += 1
+                sim.exit_process(a.proc)     # the interrupted process ends; kernel releases its locks
             break
         except BaseException as e:
             rec["outcome"] = "raise"
